@@ -7,13 +7,37 @@ From LI Require Import Runtime.Resolve.
 From LI Require Import Runtime.Context.
 From LI Require Import Runtime.ContextCheck.
 From LI Require Import Runtime.ContextAcc.
+From LI Require Import Runtime.Provider.
 Open Scope N_scope.
 
 (** operations as the harness receives them *)
+(** a component forest as the harness receives it: providers name their cookie *)
+Inductive rnode :=
+| RLookup
+| RSubP (wire : option nat) (cookie_name : option str) (children : rforest)
+with rforest :=
+| RNil
+| RCons (n : rnode) (f : rforest).
+
 Inductive xraw_op :=
 | XRaw (r : raw_op)
 | XRAcc (h : nat) (fa fb : flavour)
-| XRMount (h : nat) (f : flavour).
+| XRMount (h : nat) (f : flavour)
+| XRTree (h nh nctx cur : nat) (f : rforest).
+    (* render the forest under the owner of handle [h]; [nh] handles and [nctx] contexts exist, [cur] is the context of [h]
+       (numbering supplied by the generator; the scoping is [Provider.compile_forest]) *)
+
+Fixpoint cook_node (a : app) (o : main_opts) (n : rnode) : node :=
+  match n with
+  | RLookup => NLookup
+  | RSubP w None ch => NSub w None (cook_forest a o ch)
+  | RSubP w (Some nm) ch => NSub w (Some (use_cookie a nm (mo_cookie_hdr o))) (cook_forest a o ch)
+  end
+with cook_forest (a : app) (o : main_opts) (f : rforest) : forest :=
+  match f with
+  | RNil => FNil
+  | RCons n r => FCons (cook_node a o n) (cook_forest a o r)
+  end.
 
 Record xcase := mk_xcase {
   x_app : app;
@@ -22,11 +46,37 @@ Record xcase := mk_xcase {
   x_impl_a : list xobs;     (* per step: untracked reads of handles, first accessor of each pair, mounted effects, cookies; frozen observers *)
   x_impl_b : list xobs }.   (* per step: tracked reads of handles, second accessor of each pair, ... *)
 
-Definition xcook (a : app) (o : main_opts) (r : xraw_op) : xop :=
+Definition xcook (a : app) (o : main_opts) (r : xraw_op) : list xop :=
   match r with
-  | XRaw r => XOp (cook a o r)
-  | XRAcc h fa fb => XAcc h fa fb
-  | XRMount h f => XMount h f
+  | XRaw r => [XOp (cook a o r)]
+  | XRAcc h fa fb => [XAcc h fa fb]
+  | XRMount h f => [XMount h f]
+  | XRTree h nh nctx cur f => map XOp (snd (compile_forest (cook_forest a o f) h cur nh nctx))
+  end.
+
+(** the harness observes once after a whole forest; nothing is set or flushed while it is rendered, so what was
+    observable after each of its operations is that observation cut to the handles and contexts existing then *)
+Definition trunc (o : xobs) (nh nc : nat) : xobs :=
+  (mk_obs (firstn nh (o_handles (fst o))) (o_accs (fst o)) (o_watch (fst o)) (firstn nc (o_cookies (fst o))), snd o).
+Fixpoint expand_tree (ops : list op) (nh nc : nat) (io : xobs) : list xobs :=
+  match ops with
+  | [] => []
+  | [_] => [io]
+  | o :: r =>
+      let nc' := match o with ONewSub _ _ _ => S nc | _ => nc end in
+      trunc io (S nh) nc' :: expand_tree r (S nh) nc' io
+  end.
+Fixpoint expand_impl (a : app) (o : main_opts) (rs : list xraw_op) (tr : list xobs) : list xobs :=
+  match rs, tr with
+  | XRTree h nh nctx cur f :: rs', io :: tr' =>
+      expand_tree (snd (compile_forest (cook_forest a o f) h cur nh nctx)) nh nctx io ++ expand_impl a o rs' tr'
+  | _ :: rs', io :: tr' => io :: expand_impl a o rs' tr'
+  | _, _ => tr
+  end.
+Definition expand_trace (a : app) (o : main_opts) (rs : list xraw_op) (tr : list xobs) : list xobs :=
+  match tr with
+  | o0 :: r => o0 :: expand_impl a o rs r
+  | [] => []
   end.
 
 Definition xobs_eqb (x y : xobs) : bool := obs_eqb (fst x) (fst y) && listN_eqb (snd x) (snd y).
@@ -44,7 +94,7 @@ Definition xcheck (c : xcase) : N :=
   if negb (app_wf a) then 1 else
   let l0 := init_main true a (x_main c) in
   let con := mo_enable_cookie (x_main c) in
-  let xops := map (xcook a (x_main c)) (x_ops c) in
+  let xops := flat_map (xcook a (x_main c)) (x_ops c) in
   if negb (forallb xop_wf xops) then 1 else
   let m := xmodel_trace l0 con xops in
   if negb (xspec_C16 l0 con xops (x_impl_a c) && xspec_C16 l0 con xops (x_impl_b c)) then 3
@@ -106,11 +156,11 @@ Definition tcheck (tc : tcase) : N :=
   if negb (app_wf a) then 1 else
   let l0 := init_main true a (x_main c) in
   let con := mo_enable_cookie (x_main c) in
-  let xops := map (xcook a (x_main c)) (x_ops c) in
+  let xops := flat_map (xcook a (x_main c)) (x_ops c) in
   if negb (forallb xop_wf xops) then 1 else
   let m := xmodel_trace l0 con xops in
-  let ia := dec_trace (t_dec tc) true m (x_impl_a c) in
-  let ib := dec_trace (t_dec tc) false m (x_impl_b c) in
+  let ia := dec_trace (t_dec tc) true m (expand_trace a (x_main c) (x_ops c) (x_impl_a c)) in
+  let ib := dec_trace (t_dec tc) false m (expand_trace a (x_main c) (x_ops c) (x_impl_b c)) in
   if negb (xspec_C16 l0 con xops ia && xspec_C16 l0 con xops ib) then 3
   else if negb (xtrace_eqb m ia && xtrace_eqb m ib) then 2
   else 0.
